@@ -37,13 +37,13 @@
 // measure that does not depend on how loaded the machine is; ordinary ops take milliseconds -- is reported as
 // `k ORACLE FAIL slow-handler op#j <op>`: the single-threaded server answered nobody during that time.  CPU time still varies
 // with the load of the machine (page faults), so the same is also measured in a load-independent unit: one op whose malloc()
-// calls add up to more than C07_ALLOC_BUDGET_MB (default 100) megabytes -- ordinary ops stay below a few megabytes -- is
+// calls add up to more than C07_ALLOC_BUDGET_MB (default 32) megabytes -- ordinary ops stay below one megabyte -- is
 // reported as `k ORACLE FAIL resource-hog op#j <op>` (byte counter installed with the sanitizer's malloc hook).
 #include <signal.h>
 #include <unistd.h>
 #include <time.h>
 #include <sys/resource.h>
-#include <sanitizer/allocator_interface.h>
+extern "C" int __sanitizer_install_malloc_and_free_hooks(void (*malloc_hook)(const volatile void *, size_t), void (*free_hook)(const volatile void *));   // libasan
 #include "refl_common.h"
 #include "regex/PathMatcher.h"
 #include "regex/QueryFilter.h"
@@ -87,7 +87,7 @@ static double g_cpuBudget = 3.0;
 static double g_maxCpu = 0.0;
 
 static volatile unsigned long long g_allocBytes = 0;
-static unsigned long long g_allocBudget = 100ULL*1024ULL*1024ULL;
+static unsigned long long g_allocBudget = 32ULL*1024ULL*1024ULL;
 static unsigned long long g_maxAlloc = 0;
 static void OnMalloc(const volatile void *, size_t n) {g_allocBytes += n;}
 static void OnFree(const volatile void *) {}
